@@ -26,110 +26,10 @@ func runC02(c *Ctx, r *Report) {
 	r.Doc("R-C02.4", "construction without heads derives them from the stored entries")
 	r.Doc("R-C02.5", "heads are replaced, never edited in place")
 	r.Doc("R-C02.6", "bounded merge recomputes heads over the truncated list")
+	r.Doc("R-C02.7", "a refused append or merge leaves the entry index, the predecessor index and the heads untouched (a phantom link or entry makes a later merge drop a true head or resurrect a stale one)")
+	refusedOperationsLeaveNoTrace(c, r, "R-C02.7")
 
-	// ---- R-C02.1
-	fh := p.FuncI("entry", "", "FindHeads")
-	param := paramObj(fh, 0)
-	// the reverse index: a map[string]… local written under loops
-	var idx types.Object
-	var idxWrite *ast.AssignStmt
-	walkNoLit(fh.Body, func(n ast.Node) bool {
-		if as, ok := n.(*ast.AssignStmt); ok {
-			for _, l := range as.Lhs {
-				if ix, ok := ast.Unparen(l).(*ast.IndexExpr); ok {
-					if id, ok := ast.Unparen(ix.X).(*ast.Ident); ok {
-						if _, isMap := p.TypeOf(fh, id).Underlying().(*types.Map); isMap {
-							idx, idxWrite = p.ObjOf(fh, id), as
-						}
-					}
-				}
-			}
-		}
-		return true
-	})
-	key := r.Key("R-C02.1", fh, "reverse-index", "")
-	if idx == nil {
-		r.Violate("R-C02.1", key, fh.Body.Pos(), "FindHeads builds no reverse index of predecessor links")
-	} else {
-		// enclosing statements of the write: only range loops, the outer over <param>.Keys(), the inner over GetNext()
-		overKeys, overNext, conditional := false, false, ""
-		for cur := p.parent[ast.Node(idxWrite)]; cur != nil && cur != ast.Node(fh.Body); cur = p.parent[cur] {
-			switch x := cur.(type) {
-			case *ast.RangeStmt:
-				if call, ok := ast.Unparen(x.X).(*ast.CallExpr); ok {
-					if se, ok := ast.Unparen(call.Fun).(*ast.SelectorExpr); ok {
-						switch se.Sel.Name {
-						case "Keys", "Slice":
-							if id, ok := ast.Unparen(se.X).(*ast.Ident); ok && p.ObjOf(fh, id) == param {
-								overKeys = true
-							}
-						case "GetNext":
-							overNext = true
-						}
-					}
-				}
-			case *ast.IfStmt, *ast.SwitchStmt:
-				conditional = p.Pos(cur.Pos())
-			}
-		}
-		r.Check(overKeys && overNext && conditional == "", "R-C02.1", key, idxWrite.Pos(),
-			"every predecessor link of every entry of the map is recorded unconditionally",
-			"the reverse index in FindHeads does not record every predecessor link of every entry (all entries="+boolS(overKeys)+", all links="+boolS(overNext)+", condition at "+conditional+"): referenced entries are reported as heads")
-	}
-	// result appends dominated by the negative lookup of the loop key
-	lookups := map[types.Object][2]types.Object{} // ok var / value var -> (keyObj, _)
-	walkNoLit(fh.Body, func(n ast.Node) bool {
-		if as, ok := n.(*ast.AssignStmt); ok && len(as.Lhs) == 2 && len(as.Rhs) == 1 {
-			if ix, ok := ast.Unparen(as.Rhs[0]).(*ast.IndexExpr); ok {
-				if id, ok := ast.Unparen(ix.X).(*ast.Ident); ok && p.ObjOf(fh, id) == idx {
-					if kid, ok := ast.Unparen(ix.Index).(*ast.Ident); ok {
-						if okid, ok := as.Lhs[1].(*ast.Ident); ok {
-							lookups[p.ObjOf(fh, okid)] = [2]types.Object{p.ObjOf(fh, kid), nil}
-						}
-					}
-				}
-			}
-		}
-		return true
-	})
-	ff := &Flow{P: p, Fn: fh, Entry: Facts{}}
-	ff.Edge = func(cond ast.Expr, taken bool, f Facts) {
-		for _, a := range splitCond(cond, taken) {
-			if id, ok := ast.Unparen(a.E).(*ast.Ident); ok && !a.Truth {
-				if kv, ok := lookups[p.ObjOf(fh, id)]; ok {
-					f["unref|"+p.ID(kv[0])] = true
-				}
-			}
-		}
-	}
-	ff.Node = func(n ast.Node, f Facts) {
-		// a new iteration rebinds the key: facts about it are re-established by the lookup in the body
-	}
-	ff.Run()
-	napp := 0
-	ff.Visit(func(_ *cfgBlk, n ast.Node, before Facts) {
-		walkNoLit(n, func(nd ast.Node) bool {
-			call, ok := nd.(*ast.CallExpr)
-			if !ok || p.Builtin(fh, call) != "append" || len(call.Args) < 2 {
-				return true
-			}
-			// appended value: <param>.UnsafeGet(k) / Get(k)
-			inner, ok := ast.Unparen(call.Args[1]).(*ast.CallExpr)
-			if !ok || len(inner.Args) != 1 {
-				return true
-			}
-			kid, ok := ast.Unparen(inner.Args[0]).(*ast.Ident)
-			if !ok {
-				return true
-			}
-			napp++
-			r.Check(before["unref|"+p.ID(p.ObjOf(fh, kid))], "R-C02.1", r.Key("R-C02.1", fh, "result", ""), call.Pos(),
-				"an entry is returned only when its own key is absent from the reverse index",
-				"FindHeads returns an entry without a dominating negative lookup of that entry's key in the reverse index: entries that others point to are reported as heads (or the test is on another key)")
-			return true
-		})
-	})
-	r.Floor("R-C02.1", "result appends in FindHeads", napp, 1)
+	findHeadsShape(c, r, "R-C02.1")
 
 	// ---- R-C02.2
 	app := p.FuncI("", "IPFSLog", "Append")
@@ -231,6 +131,60 @@ func runC02(c *Ctx, r *Report) {
 	}
 	r.Check(okDerive, "R-C02.4", r.Key("R-C02.4", newLog, "derive-heads", ""), newLog.Body.Pos(), "heads of a log built without explicit heads are FindHeads of the entries it stores", "NewLog does not derive missing heads with FindHeads from the entry map it stores: a log loaded from entries has no heads, or heads of another entry set")
 
+	// the predecessor index a new log starts with: every link of every given entry, whatever else was supplied
+	{
+		var nextObj types.Object
+		walkNoLit(newLog.Body, func(n ast.Node) bool {
+			if kv, ok := n.(*ast.KeyValueExpr); ok {
+				if k, ok := kv.Key.(*ast.Ident); ok && k.Name == "Next" {
+					if cl, ok := p.parent[kv].(*ast.CompositeLit); ok && namedOf(p.TypeOf(newLog, cl)) == logT {
+						if id, ok := ast.Unparen(kv.Value).(*ast.Ident); ok {
+							nextObj = p.ObjOf(newLog, id)
+						}
+					}
+				}
+			}
+			return true
+		})
+		key := r.Key("R-C02.4", newLog, "initial-index", "")
+		nset := 0
+		if nextObj != nil {
+			walkNoLit(newLog.Body, func(n ast.Node) bool {
+				call, ok := n.(*ast.CallExpr)
+				if !ok {
+					return true
+				}
+				se, ok := ast.Unparen(call.Fun).(*ast.SelectorExpr)
+				if !ok || se.Sel.Name != "Set" {
+					return true
+				}
+				if id, ok := ast.Unparen(se.X).(*ast.Ident); !ok || p.ObjOf(newLog, id) != nextObj {
+					return true
+				}
+				nset++
+				okc, why := loopComplete(p, newLog, call, 2, false, false)
+				if okc {
+					ls := enclosingLoops(p, newLog, call)
+					for cur := p.parent[ast.Node(ls[1])]; cur != nil && cur != ast.Node(newLog.Body); cur = p.parent[cur] {
+						switch cur.(type) {
+						case *ast.IfStmt, *ast.SwitchStmt, *ast.CaseClause:
+							okc, why = false, "the indexing loops only run under the condition at "+p.Pos(cur.Pos())
+						}
+					}
+					if okc && (!fullRange(ls[0]) || !fullRange(ls[1])) {
+						okc, why = false, "the loops range over a part of the entries or links"
+					}
+				}
+				r.Check(okc, "R-C02.4", key, call.Pos(), "a new log indexes every predecessor link of every given entry, whatever options were supplied",
+					"NewLog does not index every predecessor link of every given entry ("+why+"): a later merge treats referenced entries as unreferenced and brings stale heads back")
+				return true
+			})
+		}
+		if nset == 0 {
+			r.Violate("R-C02.4", key, newLog.Body.Pos(), "NewLog builds no predecessor index for the entries it is given")
+		}
+	}
+
 	// ---- R-C02.5
 	nmut := 0
 	for _, fn := range p.Fns {
@@ -321,4 +275,142 @@ func boolS(b bool) string {
 		return "yes"
 	}
 	return "no"
+}
+
+// findHeadsShape: FindHeads records every predecessor link (and only predecessor links) of every entry and
+// reports an entry exactly on the negative lookup of its own key. Shared by the properties that rely on the head
+// scan being exact (C02 itself, C03 completeness of the linearisation, C05 nothing vanishes in a merge).
+func findHeadsShape(c *Ctx, r *Report, rule string) {
+	p := c.P
+	// ---- R-C02.1
+	fh := p.FuncI("entry", "", "FindHeads")
+	param := paramObj(fh, 0)
+	// the reverse index: a map[string]… local written under loops
+	var idx types.Object
+	var idxWrites []*ast.AssignStmt
+	walkNoLit(fh.Body, func(n ast.Node) bool {
+		if as, ok := n.(*ast.AssignStmt); ok {
+			for _, l := range as.Lhs {
+				if ix, ok := ast.Unparen(l).(*ast.IndexExpr); ok {
+					if id, ok := ast.Unparen(ix.X).(*ast.Ident); ok {
+						if _, isMap := p.TypeOf(fh, id).Underlying().(*types.Map); isMap {
+							idx = p.ObjOf(fh, id)
+							idxWrites = append(idxWrites, as)
+						}
+					}
+				}
+			}
+		}
+		return true
+	})
+	if idx == nil {
+		r.Violate(rule, r.Key(rule, fh, "reverse-index", ""), fh.Body.Pos(), "FindHeads builds no reverse index of predecessor links")
+	}
+	nGood := 0
+	for _, idxWrite := range idxWrites {
+		// enclosing statements of the write: only range loops, the outer over <param>.Keys(), the inner over GetNext()
+		overKeys, overNext, conditional, other := false, false, "", ""
+		for cur := p.parent[ast.Node(idxWrite)]; cur != nil && cur != ast.Node(fh.Body); cur = p.parent[cur] {
+			switch x := cur.(type) {
+			case *ast.RangeStmt:
+				if call, ok := ast.Unparen(x.X).(*ast.CallExpr); ok {
+					if se, ok := ast.Unparen(call.Fun).(*ast.SelectorExpr); ok {
+						switch se.Sel.Name {
+						case "Keys", "Slice":
+							if id, ok := ast.Unparen(se.X).(*ast.Ident); ok && p.ObjOf(fh, id) == param {
+								overKeys = true
+							}
+						case "GetNext":
+							overNext = true
+						default:
+							other = se.Sel.Name
+						}
+					}
+				}
+			case *ast.IfStmt, *ast.SwitchStmt:
+				conditional = "condition at " + p.Pos(cur.Pos())
+			}
+		}
+		if other != "" && !overNext {
+			// a second kind of link poured into the index: entries named there stop being heads
+			r.Violate(rule, r.Key(rule, fh, "reverse-index-extra", other), idxWrite.Pos(), "FindHeads also records the result of "+other+"() in its reverse index: only predecessor links (GetNext) decide whether an entry is a head; an entry that is merely named there is dropped from the heads although nothing in the log points to it")
+			continue
+		}
+		if conditional == "" {
+			if ok, why := loopComplete(p, fh, idxWrite, 2, false, false); !ok {
+				conditional = why
+			}
+		}
+		nGood++
+		r.Check(overKeys && overNext && conditional == "", rule, r.Key(rule, fh, "reverse-index", ""), idxWrite.Pos(),
+			"every predecessor link of every entry of the map is recorded unconditionally",
+			"the reverse index in FindHeads does not record every predecessor link of every entry (all entries="+boolS(overKeys)+", all links="+boolS(overNext)+", "+conditional+"): referenced entries are reported as heads")
+	}
+	if idx != nil && nGood == 0 {
+		r.Violate(rule, r.Key(rule, fh, "reverse-index", ""), fh.Body.Pos(), "FindHeads records no predecessor links in its reverse index")
+	}
+	// result appends dominated by the negative lookup of the loop key
+	lookups := map[types.Object][2]types.Object{} // ok var / value var -> (keyObj, _)
+	walkNoLit(fh.Body, func(n ast.Node) bool {
+		if as, ok := n.(*ast.AssignStmt); ok && len(as.Lhs) == 2 && len(as.Rhs) == 1 {
+			if ix, ok := ast.Unparen(as.Rhs[0]).(*ast.IndexExpr); ok {
+				if id, ok := ast.Unparen(ix.X).(*ast.Ident); ok && p.ObjOf(fh, id) == idx {
+					if kid, ok := ast.Unparen(ix.Index).(*ast.Ident); ok {
+						if okid, ok := as.Lhs[1].(*ast.Ident); ok {
+							lookups[p.ObjOf(fh, okid)] = [2]types.Object{p.ObjOf(fh, kid), nil}
+						}
+					}
+				}
+			}
+		}
+		return true
+	})
+	ff := &Flow{P: p, Fn: fh, Entry: Facts{}}
+	ff.Edge = func(cond ast.Expr, taken bool, f Facts) {
+		for _, a := range splitCond(cond, taken) {
+			if id, ok := ast.Unparen(a.E).(*ast.Ident); ok && !a.Truth {
+				if kv, ok := lookups[p.ObjOf(fh, id)]; ok {
+					f["unref|"+p.ID(kv[0])] = true
+				}
+			}
+		}
+	}
+	ff.Node = func(n ast.Node, f Facts) {
+		// a new iteration rebinds the key: facts about it are re-established by the lookup in the body
+	}
+	ff.Run()
+	napp := 0
+	ff.Visit(func(_ *cfgBlk, n ast.Node, before Facts) {
+		walkNoLit(n, func(nd ast.Node) bool {
+			call, ok := nd.(*ast.CallExpr)
+			if !ok || p.Builtin(fh, call) != "append" || len(call.Args) < 2 {
+				return true
+			}
+			// appended value: <param>.UnsafeGet(k) / Get(k)
+			inner, ok := ast.Unparen(call.Args[1]).(*ast.CallExpr)
+			if !ok || len(inner.Args) != 1 {
+				return true
+			}
+			kid, ok := ast.Unparen(inner.Args[0]).(*ast.Ident)
+			if !ok {
+				return true
+			}
+			napp++
+			okScan, whyScan := loopComplete(p, fh, call, 1, true, false)
+			if okScan {
+				if ls := enclosingLoops(p, fh, call); len(ls) == 0 || !fullRange(ls[0]) {
+					okScan, whyScan = false, "the scan ranges over a part of the key list"
+				}
+			}
+			r.Check(okScan, rule, r.Key(rule, fh, "result-scan", ""), call.Pos(),
+				"every key of the map is examined by the head scan",
+				"the head scan in FindHeads does not examine every entry ("+whyScan+"): some unreferenced entries are never reported as heads")
+			r.Check(before["unref|"+p.ID(p.ObjOf(fh, kid))], rule, r.Key(rule, fh, "result", ""), call.Pos(),
+				"an entry is returned only when its own key is absent from the reverse index",
+				"FindHeads returns an entry without a dominating negative lookup of that entry's key in the reverse index: entries that others point to are reported as heads (or the test is on another key)")
+			return true
+		})
+	})
+	r.Floor(rule, "result appends in FindHeads", napp, 1)
+
 }
